@@ -43,7 +43,9 @@ CLAIM = dict(
     text='CBMC runs the real HTML writer code for note calls, note lists and back-links with the integers spliced into href/id attributes '
          'recorded, the libc PRNG as an uninterpreted function, and proves for every seed base, extension choice and call pattern within the '
          'bound that each call resolves to the entry of its note, each entry links back to the first call, and entries are numbered 1..n '
-         '(or consistently renamed under random anchors); heading ids vs auto-link / TOC targets are compared on symbolic heading text.',
+         '(or consistently renamed under random anchors).  The automatic link of a heading (parse time) and the id the writers and the table of contents '
+         'print (export time) are proved to be built from the same source span for every heading style, TOC entries link only to ids that are printed, '
+         'and the export driver is checked against note uses registered while another list is printed (2 listed findings).',
     note='trusted: CBMC; contract stubs for writer.c note bookkeeping; <= 3 notes; whole-document numbering outside',
     technique='CBMC bounded model checking of html.c anchor-producing code with a printf-argument recorder and uninterpreted rand()',
 )
